@@ -22,7 +22,44 @@ def default_params(tier):
 
 
 # ------------------------------------------------------------------------------------------------ hierarchy
+def _permutation(ch, seq, label):
+    pool = list(seq)
+    return [pool.pop(ch.draw(len(pool), label)) for _ in range(len(seq))]
+
+
+def draw_order_family(ch, params):
+    """Dense family for ORDER defects (F13, seeded change C16d-3): every declared list is a short sub-list of one drawn
+    total order (so all lists are mutually consistent whatever the hierarchy), most classes have two bases, no inline /
+    file pairs. What the merge decides arbitrarily at one level is then often contradicted by a list merged in later."""
+    pj = _permutation(ch, JS_FILES, "perm_js")
+    pc = _permutation(ch, CSS_FILES, "perm_css")
+    n = 3 + ch.draw(max(1, min(3, params["max_classes"] - 2)), "n_classes")
+    classes = []
+    for i in range(n):
+        c = {"bases": [], "media": None, "pairs": {"template": 0, "js": 0, "css": 0}}
+        if i > 0:
+            k = ch.weighted([1, 3, 5], "n_bases")
+            pool = list(range(i))
+            for _ in range(min(k, i)):
+                c["bases"].append(pool.pop(ch.draw(len(pool), "base")))
+            c["bases"].sort(reverse=True)
+        m = {"js": None, "css": None, "extend": True}
+        js = ch.subset(pj, "js", 2, 5) or [pj[ch.draw(len(pj), "js1")]]
+        m["js"] = js
+        css = ch.subset(pc, "css", 2, 5)
+        if css:
+            m["css"] = css if ch.chance(1, 2, "css_form") else {"all": css}
+        if i > 0 and ch.chance(1, 6, "extend_list"):
+            m["extend"] = sorted(set(ch.draw(i, "ext_cls") for _ in range(1 + ch.draw(2, "n_ext"))), reverse=True)
+        c["media"] = m
+        c["media_class"] = ch.chance(1, 3, "media_class")
+        classes.append(c)
+    return classes
+
+
 def draw_hierarchy(ch, params):
+    if ch.chance(1, 5, "order_family"):
+        return draw_order_family(ch, params)
     n = 1 + ch.draw(params["max_classes"], "n_classes")
     classes = []
     for i in range(n):
@@ -62,6 +99,9 @@ def draw_hierarchy(ch, params):
             # / empty inline member alone (a definition: overrides the parents)
             pk = ch.weighted([5, 4, 2, 1, 1, 1], "pair_" + attr)
             c["pairs"][attr] = pk
+        # a custom `media_class` (public attribute; a plain subclass of django.forms.Media): one more dimension of the
+        # hierarchy space - the merged files and their order do not depend on it (seeded change C16d-3)
+        c["media_class"] = ch.chance(1, 3, "media_class")
         classes.append(c)
     return classes
 
@@ -211,6 +251,17 @@ def content(k, attr, what):
     return f"file-{attr}-{k}"
 
 
+_SIM_MEDIA = []
+
+
+def _sim_media_class():
+    if not _SIM_MEDIA:
+        from django.forms.widgets import Media
+
+        _SIM_MEDIA.append(type("SimMedia", (Media,), {"__module__": "sim.generated"}))
+    return _SIM_MEDIA[0]
+
+
 def build(classes, copy, tmpdir, rel=None):
     """Returns (list of real classes or None where creation was rejected, error or None)."""
     import sys
@@ -238,6 +289,8 @@ def build(classes, copy, tmpdir, rel=None):
             real.append(None)
             continue
         attrs = {"__module__": module}
+        if c.get("media_class"):
+            attrs["media_class"] = _sim_media_class()
         m = c["media"]
         if m is not None:
             ma = {}
